@@ -61,6 +61,14 @@ PROPS = {
                         "one process per database file"],
         "trusted_base": ["SQLite transaction atomicity and durability", "crash = goroutines abandoned at the verif gates inside AllocateKeys, transaction rolled back, fresh Storage on the same file"],
     },
+    "C20": {
+        "theorems": thms(P + "C20", ["inv_step", "C20_table_wellformed", "C20_no_send_on_closed", "C20_close_once", "rel_step", "C20_delivery"]),
+        "ties": thms(T + "Server", ["tie_routerLocked"]),
+        "engines": ["router", "routerconc"],
+        "assumptions": ["mutex => every concurrent execution equals the sequential one in lock order (Go memory model, assumed; the lock discipline itself is a regenerated fact)",
+                        "subscribers keep reading: the 10 s publish escape never fires"],
+        "trusted_base": ["order of critical sections recorded by the verif router hook right after Lock()"],
+    },
     "C14": {
         "theorems": thms(P + "C14", ["C14_eq_rfc4493", "C14_pure"]),
         "ties": thms(T + "Cmac", ["tie_constBSize", "tie_constZero", "tie_constRb"]),
@@ -105,6 +113,11 @@ MANIFEST_TEXT = {
         "level": "Lean theorems: for MA-L/M/S and every admissible network id the EUI's low 25 bits are the counter (hence C19_injective over the whole advertised key space), the prefix bits are the MA's, the network id is embedded; allocator transition system (any number of requesters, reservations, hand-outs, restarts, crashes before/after commit): C19_never_twice by invariant induction over unbounded event lists. Tied by regenerated maxID / MA sizes / NetID limits / block sizes, 40k packing cases and real KeyGenerator runs (8 concurrent requesters, restart, crash at each of the four allocator gates, last blocks of the key space for odd and even network ids).",
         "note": "real process death and SQLite durability are simulated/trusted (partial); AllocateKeys' commit error being only logged is a fault, outside this property's quantifier",
         "technique": "Lean 4 proof (bit packing by decide + omega; invariant induction over event lists) + regenerated-facts tie + differential and oracle runs on the real allocator",
+    },
+    "C20": {
+        "level": "Lean theorems over every operation sequence: C20_delivery (what a subscriber has read plus what is buffered = exactly the events published for its identifier while subscribed, once, in order; simulation against a per-subscription observer), C20_no_send_on_closed, C20_close_once, table invariant. Tied by the regenerated lock-discipline fact, 2.5k sequential sequences per run and concurrent executions replayed through the model in recorded lock order.",
+        "note": "mutex semantics, reader liveness and the 10 s escape are runtime behaviour (partial); race-detector build only in the thorough tier",
+        "technique": "Lean 4 proof (invariant + simulation by induction over operations) + regenerated-facts tie + linearisation replay of concurrent runs",
     },
     "C14": {
         "level": "Lean theorem C14_eq_rfc4493: for every block function E, every key and every message length the model of AESCMAC equals RFC 4493 (bit-string spec); model tied to pkg/cmac by regenerated constants and by differential runs (tag and caller's backing array compared) on every length 0..96 (quick) / 0..1024 x capacities 0..64 (thorough). Purity is decided by the correspondence/oracle on the real code; the Lean statement C14_pure covers the model's copy semantics only.",
